@@ -30,12 +30,15 @@ import (
 
 type DlScript struct {
 	Name string `json:"name"`
-	Mode string `json:"mode"` // sleep | block | trapexit | ignore | exitat | builtin | bgignore
+	Mode string `json:"mode"` // sleep | block | trapexit | ignore | exitat | exitabs | builtin | bgignore
+	// exitabs: the command exits (status 0) OffUs microseconds after the moment the context expires
+	// (Deadline - 2 grace periods), whenever it was started
 	// bgignore (only with TSBATCH_BG_DEADLINE=1, see mainC17): a BACKGROUND command that ignores
 	// the signals, then a short foreground command.  Outside the property (its quantifier is about
 	// foreground commands): on the current code such a script never finishes.
-	Ms  int  `json:"ms"`
-	Neg bool `json:"neg,omitempty"`
+	Ms    int  `json:"ms"`
+	OffUs int  `json:"off_us,omitempty"`
+	Neg   bool `json:"neg,omitempty"`
 }
 
 type DeadlineJob struct {
@@ -43,9 +46,10 @@ type DeadlineJob struct {
 	Scripts []DlScript `json:"scripts"`
 	Par     int        `json:"par,omitempty"`
 	Procs   int        `json:"procs,omitempty"`
+	SeqT    bool       `json:"seq_t,omitempty"` // a T that runs the subtests one after the other
 }
 
-func (s *DlScript) text(obsDir string) string {
+func (s *DlScript) text(obsDir string, ctxExpiry time.Time) string {
 	neg := ""
 	if s.Neg {
 		neg = "! "
@@ -56,6 +60,9 @@ func (s *DlScript) text(obsDir string) string {
 		return "# blocks forever, default signal disposition\n" + neg + "exec sleep 1000\n"
 	case "builtin":
 		return "# no subprocess at all\nmkdir d\ncd d\nexists .\n-- a.txt --\nx\n"
+	case "exitabs":
+		return fmt.Sprintf("# exits at the expiry of the context %+d us\n%sexec helper deadline exitabs %d %s\n", s.OffUs, neg,
+			ctxExpiry.Add(time.Duration(s.OffUs)*time.Microsecond).UnixNano(), log)
 	case "bgignore":
 		return fmt.Sprintf("# background command ignoring the signals\nexec helper deadline ignore 0 %s &\nexec helper deadline exitat 50 %s\n", log, log+"2")
 	default:
@@ -68,22 +75,29 @@ func runDeadlineChild(job *Job) {
 	res := &ChildResult{Uid: os.Getuid()}
 	obsDir := filepath.Join(job.Dir, "obs")
 	var files []string
+	t0 := time.Now()
+	deadline := t0.Add(time.Duration(dl.UntilMs) * time.Millisecond)
+	until := time.Duration(dl.UntilMs) * time.Millisecond
+	grace := until / 20
+	if grace < 100*time.Millisecond {
+		grace = 100 * time.Millisecond
+	}
+	ctxExpiry := deadline.Add(-2 * grace)
 	for i := range dl.Scripts {
 		s := &dl.Scripts[i]
 		dir := filepath.Join(job.Dir, "scripts", strconv.Itoa(i))
 		os.MkdirAll(dir, 0o777)
 		f := filepath.Join(dir, s.Name+".txt")
-		os.WriteFile(f, []byte(s.text(obsDir)), 0o666)
+		os.WriteFile(f, []byte(s.text(obsDir, ctxExpiry)), 0o666)
 		files = append(files, f)
 	}
 	par := dl.Par
 	if par <= 0 {
 		par = 8
 	}
-	root := &rootT{release: make(chan struct{}), sem: make(chan struct{}, par)}
-	t0 := time.Now()
+	root := &rootT{release: make(chan struct{}), sem: make(chan struct{}, par), seq: dl.SeqT}
 	res.T0 = t0.UnixNano()
-	p := testscript.Params{Files: files, Deadline: t0.Add(time.Duration(dl.UntilMs) * time.Millisecond)}
+	p := testscript.Params{Files: files, Deadline: deadline}
 	ran := make(chan struct{})
 	go func() {
 		defer close(ran)
@@ -227,6 +241,9 @@ func (rn *runner) evalDeadline(dl *DeadlineJob) ([]dlFinding, map[string]int) {
 		case "ignore":
 		case "exitat":
 			e = strconv.FormatInt(start+int64(s.Ms)*msNs, 10)
+			in = "0"
+		case "exitabs":
+			e = strconv.FormatInt(ctxAt+int64(s.OffUs)*1000, 10)
 			in = "0"
 		case "builtin":
 			e = strconv.FormatInt(start, 10)
@@ -554,6 +571,25 @@ func (rn *runner) mainC17() {
 		// and SIGQUIT is never killed (kill delay -1), run() waits for it for ever, also past the Deadline.
 		items = append(items, item{DeadlineJob{UntilMs: 600, Par: 8, Procs: 4, Scripts: []DlScript{{Name: "bgign", Mode: "bgignore"}}}, "observation"})
 	}
+	// a T that runs the subtests one after the other (cmd/testscript's does): the deadline is far away,
+	// every script finishes early and none may be affected by the others having finished
+	items = append(items, item{DeadlineJob{UntilMs: 3000, Par: 8, Procs: 4, SeqT: true, Scripts: []DlScript{
+		{Name: "q0", Mode: "exitat", Ms: 20}, {Name: "q1", Mode: "exitat", Ms: 30}, {Name: "q2", Mode: "builtin"},
+		{Name: "q3", Mode: "exitat", Ms: 10}, {Name: "q4", Mode: "exitat", Ms: 40},
+	}}, "hand-sequential-T"})
+	// many commands that exit within +-2 ms of the expiry of the context: the helper goroutine of
+	// waitOrStop then meets a process that has just been reaped (os.ErrProcessDone) in some of them
+	rounds := 3
+	if f.Tier == "thorough" {
+		rounds = 12
+	}
+	for k := 0; k < rounds; k++ {
+		dj := DeadlineJob{UntilMs: 600, Par: 48, Procs: 8}
+		for i := 0; i < 48; i++ {
+			dj.Scripts = append(dj.Scripts, DlScript{Name: fmt.Sprintf("x%dn%d", k, i), Mode: "exitabs", OffUs: -2000 + i*4000/47})
+		}
+		items = append(items, item{dj, "dense-at-expiry"})
+	}
 	r := common.NewRNG(f.Seed)
 	n := rn.size("TSBATCH_C17_QUICK", 10)
 	if f.Tier == "thorough" {
@@ -578,5 +614,5 @@ func (rn *runner) mainC17() {
 	}
 	close(ch)
 	wg.Wait()
-	res.Rule = fmt.Sprintf("two hand-written jobs (deadline 0.5 s and 2.4 s, one script per behaviour: /bin/sleep, exits on the interrupt, ignores it, finishes early, exits at the expiry of the context, negated blocking command, no subprocess) and %d generated jobs of 2-4 parallel scripts with deadlines 0.4-3 s; four jobs at a time; a finding is reported only when it shows in each of five attempts (timing tolerances: 40 ms early, 0.6 grace periods late); a case is one script of one job, non-trivial when it runs a subprocess; distinct = distinct (deadline, behaviour, parameter, negation)", n)
+	res.Rule = fmt.Sprintf("two hand-written jobs (deadline 0.5 s and 2.4 s, one script per behaviour: /bin/sleep, exits on the interrupt, ignores it, finishes early, exits at the expiry of the context, negated blocking command, no subprocess) and %d generated jobs of 2-4 parallel scripts with deadlines 0.4-3 s; four jobs at a time; a finding is reported only when it shows in each of five attempts (timing tolerances: 40 ms early, 0.6 grace periods late); a sequential-T job; 3 (thorough: 12) rounds of 48 parallel commands exiting within +-2 ms of the context's expiry; a case is one script of one job, non-trivial when it runs a subprocess; distinct = distinct (deadline, behaviour, parameter, negation)", n)
 }
